@@ -40,10 +40,12 @@ NA_REASONS = {
 }
 
 NOT_BUILT = "simulation target per DESIGN.md §1 but its engine is not built/sound yet in this tree, so it is not claimed"
-for _p in "C36 C37 C39 C45".split():
+for _p in "C36 C39 C45".split():
     NA_REASONS[_p] = NOT_BUILT
 
 ENGINE_INFO = {
+    "E8-sim-openmp": {"path": "simkit/e8_omp.py + simkit/simgomp.c", "serves_properties": ["C37"],
+                      "kind_free_text": "deterministic libgomp replacement (baton-passing pthreads, seeded scheduler, ld --wrap GIL yield points) under real generated prange code"},
     "E6-loop-hook": {"path": "simkit/e6_loops.py", "serves_properties": ["C14"],
                      "kind_free_text": "compiled loops with a scripted hook as second party (mutation/exit histories) vs CPython"},
     "E7-namespace-history": {"path": "simkit/e7_ns.py", "serves_properties": ["C26", "C27"],
@@ -65,6 +67,12 @@ ENGINE_INFO = {
 }
 
 CHECKS = {
+    "C37": {
+        "engine": "E8-sim-openmp", "level": "exploration", "design_ref": "DESIGN.md §4 E8",
+        "technique": "deterministic simulation of the OpenMP runtime: code compiled with gcc -fopenmp is linked against a seeded replacement for libgomp (real pthreads, one baton; hand-over at every runtime entry, at yield points in loop bodies and around GIL transitions via ld --wrap); seeded search over interleavings, chunk hand-outs, thread counts, schedules; oracle from the recorded iteration log against the sequential loop and the documented exit rules; exact replay per seed",
+        "text": "Generated-C for prange/parallel runs with its real GCC OpenMP lowering, real threads and the real GIL, but every scheduling decision libgomp and the OS would make (who runs after each runtime call, which thread gets which dynamic/guided/runtime chunk, who reaches the exception hand-off first) is drawn from a per-run seed. No-exit bodies must execute every iteration exactly once and give sequential results, index and lastprivate values for all schedules, chunk sizes, 1-8 threads, empty/negative/non-unit ranges. For break/return/raise bodies the outcome must be one the recorded execution allows (a raising iteration's exception wins over return/break; else a returning iteration's value; else-clause skipped after break), no iteration runs twice, no exception object leaks or is freed twice, and the region terminates within a step budget (deadlock and livelock detection). Sampling, not proof.",
+        "note": "The memory model is sequentially consistent at yield-point granularity: flush-placement bugs that need weak memory are out of reach. Real libgomp, with-GIL prange and free-threaded builds are not covered. The exhaustive protocol model named in the quantifier would be model checking and is not done. 'No iteration starts after the exit flag is flushed' is not asserted (best-effort rule).",
+    },
     "C14": {
         "engine": "E6-loop-hook", "level": "exploration", "design_ref": "DESIGN.md §4 E6",
         "technique": "deterministic simulation with a second party: the loop body calls the simulator's hook, which per the seeded script mutates the container being iterated (or steers break/continue/raise) at a chosen visit; visit sequence, RuntimeError, final loop variable, else clause and container state are compared with CPython; script shrinking as replay",
